@@ -9,6 +9,12 @@ NA = {
     "C18": "postcondition is about importlib resolution over an arbitrary on-disk package layout; a contract would have to assume the import system wholesale",
 }
 CHECKS = {
+    "C03": dict(level="other", technique="deductive contracts (pyvc) on _apply_rewrites, _replace_nodes, fix_import_spacing, fix, chain (valid-or-unchanged / valid-to-valid), format_file write guard as ghost-event obligations, structural rule-classification obligations; bounded validity check of every rule and entry point on the corpus",
+                text="The validity rollback of every scheduled pass, of _replace_nodes and of fix_import_spacing, the preservation of validity by fix/chain and the write guard of format_file are proved for all texts; rules that edit text directly and format_code as a whole have no final guard and are bounded (every rule, option sets, sub/subn, format_file on a temp tree over the corpus).",
+                note="trusted: z3, pyvc executor (lenient mode), ast.parse as validity; direct-editing rules bounded only", ref="5/C03"),
+    "C04": dict(level="other", technique="deductive contracts (pyvc): literal_value raises only ValueError + call-site guards, early returns of format_code, index-in-bounds obligations of the offset code, _loop_may_be_left, progress obligation of self-recursive rules; bounded totality runs of format_code on adversarial families",
+                text="Exception containment of constant evaluation, bounds of every offset subscript, the early-return paths and the progress condition of the self-recursive rules are proved; totality of the whole formatter (no exception, bounded time) is a bounded run over adversarial constants, every statement kind at end-of-file, invalid and indented inputs and option sets.",
+                note="trusted: z3, pyvc executor, assumed parser position contract; termination of self-recursive rules and interpreter limits outside the model", ref="5/C04"),
     "C10": dict(level="other", technique="deductive contracts (pyvc: ast->VC, z3/cvc5) on Range.overlaps, the conflict step/loop/final sort of _schedule_rewrites, _apply_rewrites, fix, chain; bounded marker-token drive of the real fix/chain for the textual splice",
                 text="Scheduler kernel proved for all rewrite lists of any length (all-or-nothing, never-overlap, dropped-only-if, precedence order, descending application order, valid-or-unchanged); the difflib-based splice and the end-to-end reading on output text are bounded (enumerated conflict configurations).",
                 note="trusted: z3/cvc5, the pyvc executor's model of Python (DESIGN 1.2), sorted()/set-comprehension models, ast.parse as validity; _do_rewrite only bounded", ref="5/C10"),
